@@ -101,6 +101,35 @@ fn summary_json(ctx: &Ctx, out: &ShardOut, wall: f64) -> J {
         .set("wall_s", J::F(wall))
 }
 
+/// runs `f` with a watchdog thread: an operation that spins after an injected fault (possible
+/// once a list holds entries its index does not know) is inconclusive, not a verdict
+fn with_watchdog<R>(f: impl FnOnce() -> R) -> R {
+    static DONE: std::sync::atomic::AtomicBool = std::sync::atomic::AtomicBool::new(false);
+    DONE.store(false, std::sync::atomic::Ordering::Relaxed);
+    let wd = std::thread::spawn(|| {
+        let mut last = u64::MAX;
+        let mut idle_ms = 0u64;
+        while !DONE.load(std::sync::atomic::Ordering::Relaxed) {
+            std::thread::sleep(std::time::Duration::from_millis(if cfg!(miri) { 20 } else { 200 }));
+            let now = c18::HEARTBEAT.load(std::sync::atomic::Ordering::Relaxed);
+            if now == last {
+                idle_ms += 200;
+                if idle_ms >= 30_000 && !cfg!(miri) {
+                    println!("@@HANG {}", J::obj().set("heartbeat", J::U(now)));
+                    std::process::exit(86);
+                }
+            } else {
+                idle_ms = 0;
+                last = now;
+            }
+        }
+    });
+    let r = f();
+    DONE.store(true, std::sync::atomic::Ordering::Relaxed);
+    let _ = wd.join();
+    r
+}
+
 fn main() {
     let args: Vec<String> = std::env::args().collect();
     install_panic_hook();
@@ -137,38 +166,16 @@ fn main() {
                 }
                 "C03" => {
                     let mut o = engine_suite(&ctx);
-                    c18::c03_chaotic(&ctx, &mut o, argn(&args, "--chaotic", 0));
+                    let n = argn(&args, "--chaotic", 0);
+                    if n > 0 {
+                        with_watchdog(|| c18::c03_chaotic(&ctx, &mut o, n));
+                    }
                     o
                 }
                 "C01" | "C02" | "C04" | "C06" | "C07" | "C08" | "C09" | "C10" | "C12"
                 | "C14" | "C15" => engine_suite(&ctx),
                 "C05" => c05::c05_suite(&ctx),
-                "C18" => {
-                    // watchdog: a post-panic operation that spins is inconclusive, not a verdict
-                    static DONE: std::sync::atomic::AtomicBool = std::sync::atomic::AtomicBool::new(false);
-                    let wd = std::thread::spawn(|| {
-                        let mut last = u64::MAX;
-                        let mut idle_ms = 0u64;
-                        while !DONE.load(std::sync::atomic::Ordering::Relaxed) {
-                            std::thread::sleep(std::time::Duration::from_millis(if cfg!(miri) { 20 } else { 200 }));
-                            let now = c18::HEARTBEAT.load(std::sync::atomic::Ordering::Relaxed);
-                            if now == last {
-                                idle_ms += 200;
-                                if idle_ms >= 30_000 && !cfg!(miri) {
-                                    println!("@@HANG {}", J::obj().set("heartbeat", J::U(now)));
-                                    std::process::exit(86);
-                                }
-                            } else {
-                                idle_ms = 0;
-                                last = now;
-                            }
-                        }
-                    });
-                    let o = c18::c18_suite(&ctx);
-                    DONE.store(true, std::sync::atomic::Ordering::Relaxed);
-                    let _ = wd.join();
-                    o
-                }
+                "C18" => with_watchdog(|| c18::c18_suite(&ctx)),
                 "C16" => diff_suites::c16_suite(&ctx),
                 "C17" => diff_suites::c17_suite(&ctx),
                 "C11" => lfu_suites::c11_suite(&ctx),
